@@ -77,6 +77,10 @@ class CatModel:
                 for x in range(min(en['CAT_CMD_TYPE_READ'], en['CAT_CMD_TYPE_TEST']) + 1, max(en['CAT_CMD_TYPE_READ'], en['CAT_CMD_TYPE_TEST'])):
                     s.facts.assume_ne(v, x)
                 return v
+            if loc[:2] == ('S', 'unsolicited_fsm') and len(loc) == 3 and loc[2].startswith('unsolicited_cmd_buffer_'):
+                # ring invariant (established by rule C13/ring for every capacity analysed)
+                hi = self.ring_cap if loc[2].endswith('items_count') else self.ring_cap - 1
+                return it.fresh(s, name, None, (0, hi))
             return it.fresh(s, name, qt)
         q = qt.replace('const ', '').strip()
         if loc == ('S', 'desc'):
